@@ -16,15 +16,15 @@ import random
 import vlib
 from checks import disrupt_common as dc
 
-NCOND = {"quick": 120, "thorough": 1500}
-NEXPLORE = {"quick": 60, "thorough": 800}
+NCOND = {"quick": 120, "thorough": 3000}
+NEXPLORE = {"quick": 60, "thorough": 4000}
 
 
 def closed_models(run):
     r = run.closed_model("Disruption", "Disruption_MC.cfg", workers=4, heap="3g", coverage=True)
     if r.coverage_zero:
         raise vlib.InfraError("vacuous closed model Disruption, actions never taken: %s" % r.coverage_zero)
-    r = run.closed_model("DisruptionCond", "DisruptionCond_MC.cfg", workers=4, heap="3g", coverage=True)
+    r = run.closed_model("DisruptionCond", "DisruptionCond_MC.cfg", workers=1, heap="3g", coverage=True)  # 1 worker: BFS order fixes the VIEW representatives
     if r.coverage_zero:
         raise vlib.InfraError("vacuous closed model DisruptionCond, actions never taken: %s" % r.coverage_zero)
     rejected = []
@@ -165,7 +165,7 @@ def fault_scenarios(run, rng):
 
 
 def check(run):
-    run.rule = ("TLC enumerates the blocker x method table of Disruption.tla (5 methods x 38 blockers/controls, singles and "
+    run.rule = ("TLC enumerates the blocker x method table of Disruption.tla (5 methods x 42 blockers/controls, singles and "
                 "pairs with the terminationGracePeriod modifier in quick, all pairs in thorough, plus one churn blocker "
                 "during the validation wait); each cell is a cluster where node x is the method's best candidate next to an "
                 "unblocked control; the real method (incl. validation) and one real controller round run on it. "
